@@ -120,12 +120,15 @@ def one_run(A, opt, seed):
            "fin": {"S": False, "gU": False, "gV": False, "err2": False, "pd": False, "minU": False, "minV": False},
            "degenerate": False}
     fin = out["fin"]
+    out["pow2"] = int(opt.get("pow2", 0))
+    unit = 2.0 ** out["pow2"]
     try:
-        U, S, V = _call(A, opt, seed)
+        with np.errstate(all="ignore"):
+            U, S, V = _call(A * unit if out["pow2"] else A, opt, seed)
     except Exception as ex:
         out["raised"], out["exc"] = True, type(ex).__name__
         return out
-    U, S, V = np.asarray(U), np.asarray(S), np.asarray(V)
+    U, S, V = np.asarray(U), np.asarray(S) / unit, np.asarray(V)       # exact rescaling: everything below sees the unit-scale problem
     out["shU"], out["shS"], out["shV"] = [int(x) for x in U.shape], [int(x) for x in S.shape], [int(x) for x in V.shape]
     if U.ndim != 2 or V.ndim != 2 or S.ndim != 1:
         return out
@@ -201,6 +204,14 @@ def all_opts(m, n, options):
                         out.append(dict(base, flip="off", nonneg="off", via="direct"))
                     if k != 0 and over == 5 and niter == 2:
                         out.append(dict(base, mask="ones", flip="off", nonneg="off", via="interface"))
+                    if k in (0, 1, 2) and over == 5 and niter == 2:
+                        for p2 in sorted(options["pow2s"]):
+                            if p2 == 0 or (meth == "symeig_svd" and abs(p2) > 400):
+                                continue
+                            for via in (["interface"] if meth == "callable" else ["interface", "direct"]):
+                                out.append(dict(base, flip="off", nonneg="off", via=via, pow2=p2))
+    for o in out:
+        o.setdefault("pow2", 0)
     return out
 
 
@@ -269,7 +280,7 @@ def run(chk, opts):
                 % (n_exact, len(mats), per, len(cases) - n_exact))
     for e in events:
         for rr in e.get("runs", []):
-            chk.distinct.add((e["cfg"]["m"], e["cfg"]["n"], rr["method"], rr["over"], rr["niter"], rr["mask"], rr["k"], rr["flip"], rr["nonneg"], rr["via"]))
+            chk.distinct.add((e["cfg"]["m"], e["cfg"]["n"], rr["method"], rr["over"], rr["niter"], rr["mask"], rr["pow2"], rr["k"], rr["flip"], rr["nonneg"], rr["via"]))
     for e in events[:1] + events[-1:]:
         if "runs" in e:
             chk.sample(dict(e, runs=e["runs"][:3]))
@@ -304,11 +315,11 @@ def report(chk, ev, case, clause, rest):
         _violation(chk, ev["id"], clause, dict(case, opts=[]), dict(ev, runs=[]))
         return
     run_ = ev["runs"][ridx - 1]
-    opt = {k: run_[k] for k in ("method", "over", "niter", "mask", "k", "flip", "nonneg", "via")}
+    opt = {k: run_[k] for k in ("method", "over", "niter", "mask", "k", "flip", "nonneg", "via", "pow2")}
     c = dict(case, opts=[opt], full=False, run=opt, derived=derived(ev["cfg"], opt))
     c["derived"]["negmean"] = bool(ev.get("negmean", sum(ev.get("data", [0])) < 0))
     c["derived"]["hasneg"] = bool(ev.get("hasneg", min(ev.get("data", [0])) < 0))
-    _violation(chk, "%s#%s-%s-k%d-o%d-i%d-%s-%s-%s-%s" % (ev["id"], ridx, opt["method"], opt["k"], opt["over"], opt["niter"], opt["mask"], opt["flip"], opt["nonneg"], opt["via"]),
+    _violation(chk, "%s#%s-%s-k%d-o%d-i%d-p%d-%s-%s-%s-%s" % (ev["id"], ridx, opt["method"], opt["k"], opt["over"], opt["niter"], opt["pow2"], opt["mask"], opt["flip"], opt["nonneg"], opt["via"]),
                clause, c, dict(ev, runs=[run_]), {"degenerate_pair": bool(run_.get("degenerate"))})
 
 
